@@ -198,28 +198,33 @@ SignatureWellFormed ==
     IN  S[1] = Len(S) - 1 /\ Len(S) = 1 + 2 * Len(N) /\ S[3] = Dim(a)
 
 (* -------------------------------------------------------- pairs: partial copies *)
-NameSet(s) == {Nodes(s)[i].name : i \in 1..Len(Nodes(s))}
-NameUnique(s) == Cardinality(NameSet(s)) = Len(Nodes(s))
-NodeNamed(s, nm) == CHOOSE x \in {Nodes(s)[i] : i \in 1..Len(Nodes(s))} : x.name = nm
+SeqSet(q) == {q[i] : i \in 1..Len(q)}
+NamesIn(N) == {N[i].name : i \in 1..Len(N)}
+NameSet(s) == NamesIn(Nodes(s))
+NameUnique(s) == LET N == Nodes(s) IN Cardinality(NamesIn(N)) = Len(N)
 IsPrefix(p, q) == Len(p) <= Len(q) /\ SubSeq(q, 1, Len(p)) = p
+Named(N, nm) == CHOOSE x \in SeqSet(N) : x.name = nm
 
-CommonNames(dst, src) == NameSet(dst) \cap NameSet(src)
-\* what getCommonSubspaces() returns: the common subspaces not contained in another common one
-MaximalCommon(dst, src) ==
-    {nm \in CommonNames(dst, src) :
-        ~\E other \in CommonNames(dst, src) :
-            other # nm /\ IsPrefix(NodeNamed(dst, other).path, NodeNamed(dst, nm).path)}
+PairShapes == {s \in Family(KindsP, NodesP) : NameUnique(s)}
+AllShapes == BaseShapes \cup Variants \cup PairShapes
+\* node tables of the pair family, computed once
+PN == [s \in PairShapes |-> Nodes(s)]
+
+\* one answer getCommonSubspaces() may give: the common subspaces not contained in another common one
+\* (a compound with a single component and that component cover each other: either may be listed)
+MaximalCommonN(ND, NS) ==
+    LET C == NamesIn(ND) \cap NamesIn(NS)
+    IN  {nm \in C : ~\E other \in C : other # nm /\ IsPrefix(Named(ND, other).path, Named(ND, nm).path)}
 
 (* which leaf of src each leaf of dst is filled from (contract of copyStateData / operator<<):
    a destination leaf is written iff it lies in a subspace whose name also occurs in the source,
    and it then receives the corresponding leaf of that source subspace *)
-SourcesOf(dst, src, lf) ==
-    {NodeNamed(src, x.name).path \o SubSeq(lf.path, Len(x.path) + 1, Len(lf.path)) :
-        x \in {y \in {Nodes(dst)[i] : i \in 1..Len(Nodes(dst))} : IsPrefix(y.path, lf.path) /\ y.name \in NameSet(src)}}
-Transfer(dst, src) ==
-    LET L == Leaves(dst)
-        Hit == SelectSeq(L, LAMBDA lf : SourcesOf(dst, src, lf) # {})
-    IN  [i \in 1..Len(Hit) |-> [to |-> Hit[i].path, from |-> CHOOSE p \in SourcesOf(dst, src, Hit[i]) : TRUE]]
+SourcesOfN(ND, NS, lf) ==
+    {Named(NS, x.name).path \o SubSeq(lf.path, Len(x.path) + 1, Len(lf.path)) :
+        x \in {y \in SeqSet(ND) : IsPrefix(y.path, lf.path) /\ y.name \in NamesIn(NS)}}
+TransferN(ND, NS) ==
+    LET Hit == SelectSeq(ND, LAMBDA lf : lf.leaf /\ SourcesOfN(ND, NS, lf) # {})
+    IN  [i \in 1..Len(Hit) |-> [to |-> Hit[i].path, from |-> CHOOSE p \in SourcesOfN(ND, NS, Hit[i]) : TRUE]]
 
 \* ALL_DATA_COPIED (2) / SOME_DATA_COPIED (1) / NO_DATA_COPIED (0): how much of the source found a place
 RECURSIVE CopyResult(_, _), CopyKids(_, _, _)
@@ -230,28 +235,26 @@ CopyResult(dstNames, s) ==
          IN  IF R \subseteq {2} THEN 2 ELSE IF R \subseteq {0} THEN 0 ELSE 1
 CopyKids(dstNames, ch, i) == IF i > Len(ch) THEN {} ELSE {CopyResult(dstNames, ch[i])} \cup CopyKids(dstNames, ch, i + 1)
 
-PairShapes == {s \in Family(KindsP, NodesP) : NameUnique(s)}
-AllShapes == BaseShapes \cup Variants \cup PairShapes
-
 \* the source leaf is the same whichever enclosing common subspace one goes through,
 \* it exists in the source and has the same kind
 TransferWellDefined ==
-    \A i \in 1..Len(Leaves(a)) :
-        LET lf == Leaves(a)[i]
-            S == SourcesOf(a, b, lf)
-        IN  /\ Cardinality(S) <= 1
-            /\ \A p \in S : \E j \in 1..Len(Leaves(b)) :
-                   Leaves(b)[j].path = p /\ Leaves(b)[j].k = lf.k /\ Leaves(b)[j].len = lf.len
-CommonIsSymmetric == CommonNames(a, b) = CommonNames(b, a)
+    LET ND == PN[a]
+        NS == PN[b]
+    IN  \A lf \in {x \in SeqSet(ND) : x.leaf} :
+            LET S == SourcesOfN(ND, NS, lf)
+            IN  /\ Cardinality(S) <= 1
+                /\ \A p \in S : \E y \in SeqSet(NS) : y.leaf /\ y.path = p /\ y.k = lf.k /\ y.len = lf.len
+CommonIsSymmetric == MaximalCommonN(PN[a], PN[b]) = MaximalCommonN(PN[b], PN[a])
 \* everything of the source arrives iff the result says so
 AllMeansAll ==
-    (CopyResult(NameSet(a), b) = 2) <=>
-        \A j \in 1..Len(Leaves(b)) : \E x \in {Nodes(b)[i] : i \in 1..Len(Nodes(b))} :
-            IsPrefix(x.path, Leaves(b)[j].path) /\ x.name \in NameSet(a)
+    LET ND == PN[a]
+        NS == PN[b]
+    IN  (CopyResult(NamesIn(ND), b) = 2) <=>
+            \A lf \in {y \in SeqSet(NS) : y.leaf} : \E x \in SeqSet(NS) : IsPrefix(x.path, lf.path) /\ x.name \in NamesIn(ND)
 \* equal signatures mean byte-compatible images (why the archive check may rely on the signature)
-ByteImage(s) == SelectSeq([i \in 1..Len(Leaves(s)) |-> [off |-> Leaves(s)[i].off, len |-> Leaves(s)[i].len,
-                                                       int |-> Leaves(s)[i].k = "D"]], LAMBDA x : x.len > 0)
-SignatureDeterminesImage == Signature(a) = Signature(b) => ByteImage(a) = ByteImage(b)
+ByteImageN(N) == SelectSeq([i \in 1..Len(N) |-> [off |-> N[i].off, len |-> N[i].len, int |-> N[i].k = "D", leaf |-> N[i].leaf]],
+                           LAMBDA x : x.leaf /\ x.len > 0)
+SignatureDeterminesImage == Signature(a) = Signature(b) => ByteImageN(Nodes(a)) = ByteImageN(Nodes(b))
 
 (* ------------------------------------------------------------------ enumeration *)
 InitShapes == a \in AllShapes /\ b = a
@@ -261,8 +264,9 @@ Next == UNCHANGED vars
 ShapeRow(s) == [id |-> Name(s), shape |-> s, wrapped |-> IsWrap(s), sig |-> Signature(s), len |-> SerLen(s),
                 nvals |-> NumValues(s), dim |-> Dim(s), nodes |-> Nodes(s), vorder |-> ValueOrder(s),
                 unique |-> NameUnique(s), pair |-> s \in PairShapes]
-PairRow(dst, src) == [dst |-> Name(dst), src |-> Name(src), common |-> MaximalCommon(dst, src),
-                      ret |-> CopyResult(NameSet(dst), src), xfer |-> Transfer(dst, src)]
+PairRow(dst, src) == [dst |-> Name(dst), src |-> Name(src), common |-> MaximalCommonN(PN[dst], PN[src]),
+                      allcommon |-> NamesIn(PN[dst]) \cap NamesIn(PN[src]),
+                      ret |-> CopyResult(NamesIn(PN[dst]), src), xfer |-> TransferN(PN[dst], PN[src])]
 EmitShape == PrintT(ToJson(ShapeRow(a)))
 EmitPair == PrintT(ToJson(PairRow(a, b)))
 ===============================================================================
